@@ -438,7 +438,17 @@ _CMP = {
 TBL_IGNORE = {"lexical_util::assert::debug_assert_radix"}
 
 
-def tbl_eval(facts, fn, args, depth=0, allow=()):
+class _Body:
+    """A promoted constant's body viewed as a function (for the table evaluator)."""
+
+    def __init__(self, owner, idx):
+        self.short = "%s::{promoted#%d}" % (owner.short, idx)
+        self.blocks = owner.promoted[idx]["blocks"]
+        self.promoted = []
+        self.owner = owner
+
+
+def tbl_eval(facts, fn, args, depth=0, allow=(), overrides=None):
     """Evaluate a *pure lookup function* on concrete keys.
 
     Accepted MIR: SwitchInt, Use, comparisons, Not, integer casts, aggregates of constants,
@@ -495,6 +505,9 @@ def tbl_eval(facts, fn, args, depth=0, allow=()):
                 return k["v"]
             if "fn" in k:
                 return {"fn": k["fn"]}
+            if "promoted" in k and k["promoted"] < len(fn.promoted):
+                r = tbl_eval(facts, _Body(fn, k["promoted"]), [], depth + 1, allow, overrides)
+                return r.value
             raise NotATable("unevaluated constant %s in %s" % (k.get("uneval", k.get("param")), fn.short))
         if op[0] in ("cp", "mv"):
             return rd_place(op[1])
@@ -586,16 +599,23 @@ def tbl_eval(facts, fn, args, depth=0, allow=()):
             bb = nxt
         elif tk in ("call", "tailcall"):
             name = callee_name(t["f"])
-            cargs = [rd(a) for a in t["a"]]
-            if name in allow:
-                v = ("call", name, cargs)
+            if overrides and name in overrides:
+                v = overrides[name](t)
+                cargs = None
             elif name in TBL_IGNORE:
                 v = []
+                cargs = None
+            else:
+                cargs = [rd(a) for a in t["a"]]
+            if cargs is None:
+                pass
+            elif name in allow:
+                v = ("call", name, cargs)
             else:
                 callee = facts.by_short.get(name)
                 if not callee or len(callee) != 1:
                     raise NotATable("call to %s in %s" % (name, fn.short))
-                r = tbl_eval(facts, callee[0], cargs, depth + 1, allow)
+                r = tbl_eval(facts, callee[0], cargs, depth + 1, allow, overrides)
                 default_taken.extend(r.default_taken)
                 chain.extend(r.chain)
                 v = r.value
